@@ -478,6 +478,8 @@ let check (b : block) : verdict list =
                    match cls_for_failure with
                    | Some c -> c
                    | None ->
+                     (* K4, repaired by F22 (calculate_core ignores dead branches): a DETECTOR without a
+                        finding line, an occurrence is a VIOLATION *)
                      if unit_old && kinds = [Core] && dead then "edit:dead-branch-core"
                      else if is_inverse then "edit:inverse-not-restored"
                      else sig_of_kind (List.hd kinds) in
@@ -526,6 +528,19 @@ let check (b : block) : verdict list =
                               ctx (String.concat "," (List.filter_map (fun (k, v) -> if v then None else Some k) (wf_parts c nv)))))
              end
            end;
+           (* the cached core (Ddnnf::rebuild recomputes it, F7; since the repair F22 calculate_core
+              ignores dead branches: C11_unit_then_core) is the model's core of exactly this vector,
+              dead nodes or not - whatever the oracle says about the step *)
+           (match List.assoc_opt "core" s.bat with
+            | Some t when List.length c <= 400 ->
+              bump "C11_core_compared";
+              let mc = List.sort compare (Conv.ints_of_zlist (Model.calculate_core c (Conv.nat_of_int nv))) in
+              let ic = List.sort compare (ints t) in
+              if mc <> ic then
+                add (Diff ("core", Printf.sprintf "%s: Ddnnf.core [%s], the model's calculate_core on the dumped vector [%s]"
+                             ctx (String.concat " " (List.map string_of_int ic)) (String.concat " " (List.map string_of_int mc))))
+              else if has_dead c then bump "C11_core_exact_on_dead_vector"
+            | _ -> ());
            prev_circ := Some c
          | None -> prev_circ := None)) steps;
     bump (if mode = "nnf" then "C11_histories_nnf" else "C11_histories_cnf");
